@@ -58,12 +58,14 @@ PROPS["C05"] = {
     "level_text": "Proved (Kani, every parameter value and capability setting): encode never panics or overflows for CursorTo/CursorMove/Scroll/ScrollRegion/EraseChars/DecModeSet/DecModeGet/KeyboardLevel/Color query; "
                   "parameterless commands emit exactly their ECMA-48/xterm bytes; a FaceModify that selects nothing representable emits nothing. "
                   "Alt-screen keyboard-level bracketing (complete, kitty_level replaced by a recording stub): entering the alternate screen emits the switch and THEN sets the level, leaving resets the level to 0 and THEN switches - "
-                  "the main screen's own level is never touched; other modes and terminals without the kitty keyboard emit the switch only. Face / FaceModify without colours emit one well-formed SGR sequence selecting exactly the requested attributes "
+                  "the main screen's own level is never touched; other modes and terminals without the kitty keyboard emit the switch only. "
+                  "Face / FaceModify with colours (complete in the colour values and depth): reset first, then foreground, background (and underline colour) each handed to the colour encoder in its own role, in that order, at the terminal's depth. Face / FaceModify without colours emit one well-formed SGR sequence selecting exactly the requested attributes "
                   "(0 first for Face; 1/22, 3/23, 5/25, 9/29, 4, 4:n, 24) on 20 fixed attribute sets (bounded stand-ins: the harness over all 6 x 32 sets does not finish in CBMC). Which decimal digits core::fmt prints for the numeric parameters, colour parameters (C20 covers the selection), Title/Termcap/Raw strings are NOT decided.",
     "level_note": "Assumed: core::fmt (write! templates and integer Display) - the sink in the harnesses records literal bytes and counts formatted writes; colours go through write! into Chunks and are outside CBMC's reach.",
     "assumptions": [
         "core::fmt is intractable for CBMC (probes: > 7 min, > 10 GB symbolic; no verdict in 10 min with all-concrete arguments; no verdict in 15 min with Display::fmt of usize stubbed): the pairing of each numeric template with its arguments and the decimal rendering are read from the source, not proved",
-        "Face/FaceModify with colours, Title, Termcap, Raw, Char, Image are not under contract",
+        "Face/FaceModify with colours: which colour goes to which SGR role, in which order and at which depth is checked (color_sgr_encode replaced by a recorder); color_sgr_encode's own output (38/48/58, 2|5, digits) is not - "
+        "io::Write::write_fmt is a trait default method, which Kani cannot stub; Title, Termcap, Raw, Char, Image are not under contract",
         "oracle byte sequences are transcribed from ECMA-48 / xterm ctlseqs / VT510",
     ],
 }
